@@ -48,12 +48,15 @@ class Body:
     def __deepcopy__(self, memo): return self
     def __init__(self, name, lines):
         self.name, self.types, self.blocks, self.args = name, {}, {}, []
+        self.debug = {}
         m = re.match(r'(?:fn|const) (.*?)\((.*)\) -> (.*) \{$', lines[0]) or re.match(r'(const) (.*?): (.*) = \{$', lines[0])
         cur = None
         for l in lines[1:]:
             s = l.strip()
             m = re.match(r'let (?:mut )?(_\d+): (.*);$', s)
             if m: self.types[m.group(1)] = m.group(2); continue
+            m = re.match(r'debug (\w+) => (_\d+);$', s)
+            if m: self.debug.setdefault(m.group(1), []).append(m.group(2)); continue
             m = re.match(r'(bb\d+)(?: \(cleanup\))?: \{$', s)
             if m: cur = m.group(1); self.blocks[cur] = []; continue
             if s == '}': cur = None; continue
